@@ -14,6 +14,7 @@ func init() {
 	vrt.Register("C11_variable_index", VariableIndex)
 	vrt.Register("C11_failures", Failures)
 	vrt.Register("C11_uses", Uses)
+	vrt.Register("C11_method_chains", MethodChains)
 }
 
 type T struct {
@@ -265,5 +266,56 @@ func Uses() {
 	got, err := render(in, ctx)
 	vrt.Assert(err == nil, "a path used in a let binding or as loop iterable renders")
 	vrt.Assert(got == want, "let / loop use: exactly the value of the Go navigation")
+	vrt.Cover("done")
+}
+
+// a linked list with distinct leaves: chains of the same / alternating method names
+type Node struct {
+	Name string
+	next *Node
+}
+
+func (n *Node) Next() *Node { return n.next }
+func (n *Node) Self() *Node { return n }
+func (n Node) Val() Node    { return n }
+
+func MethodChains() {
+	n4 := &Node{Name: leaf()}
+	n3 := &Node{Name: leaf(), next: n4}
+	n2 := &Node{Name: leaf(), next: n3}
+	n1 := &Node{Name: leaf(), next: n2}
+	n0 := &Node{Name: leaf(), next: n1}
+	ctx := plush.NewContext()
+	ctx.Set("n", n0)
+	ctx.Set("ns", []*Node{n0, n2})
+	type cs struct {
+		expr string
+		want string
+	}
+	cases := []cs{
+		{"n.Next().Name", n1.Name},
+		{"n.Next().Next().Name", n2.Name},
+		{"n.Next().Next().Next().Name", n3.Name},
+		{"n.Next().Next().Next().Next().Name", n4.Name},
+		{"n.Self().Next().Self().Next().Name", n2.Name},
+		{"n.Next().Self().Next().Self().Next().Name", n3.Name},
+		{"ns[0].Next().Next().Name", n2.Name},
+		{"ns[1].Next().Next().Name", n4.Name},
+		{"ns[1].Next().Name", n3.Name},
+		{"n.Val().Name", n0.Name},
+		{"n.Next().Val().Name", n1.Name},
+		{"n.Next().Next().Val().Val().Name", n2.Name},
+	}
+	c := cases[vrt.Choice(len(cases))]
+	var in, want string
+	switch vrt.Choice(2) {
+	case 0:
+		in, want = "[<%= "+c.expr+" %>]", "["+c.want+"]"
+	default:
+		in, want = "<% let x = "+c.expr+" %>[<%= x %>]", "["+c.want+"]"
+	}
+	got, err := render(in, ctx)
+	vrt.Assert(err == nil, "a chain of method calls renders: "+c.expr)
+	vrt.Assert(got == want, "a chain of method calls yields the value of the same chain in Go: "+c.expr)
 	vrt.Cover("done")
 }
